@@ -3,9 +3,18 @@
 Correspondence: Lean `Scan.tokens` + `Parse.compile` (acceptance, the compiled tree, the list of
 Python expressions handed to Eval) vs the real `parse`.  Oracle on the implementation: exception
 class, error location (tag text at a token start on the reported line), running time on pumped
-families.
+families (repetition  u v^n w  AND nesting  u^n v w^n, both syntaxes, every block tag), verdicts by
+construction for deep chains of block tags, and compile HISTORIES: the verdict of every compilation
+in a sequence of edits / re-compilations / ghost wake-ups on one template object (string and file
+templates) must be the verdict a fresh template object gives for the same source.
 """
+import gc
 import json
+import os
+import random
+import re
+import shutil
+import tempfile
 import time
 
 import common
@@ -171,12 +180,575 @@ def model_verdict(m):
 MAX_TIMEOUTS = 3
 
 
+# --------------------------------------------------------------------------- deep chains of block tags
+
+CHAIN_KINDS = ['if', 'unless', 'in', 'with', 'let', 'raise', 'try', 'comment']
+
+
+def _side(r, fat):
+    """what stands next to the nested block on one level: text, sometimes simple tags (never a block)"""
+    if r.random() < fat:
+        return tmplgen.gen_body(r, 0, 2)
+    t = tmplgen.gen_lit(r, 2)
+    return [('lit', t)] if t else []
+
+
+def gen_chain(r, depth, kinds=None, fat=0.3):
+    """an abstract template (tmplgen form) that is ONE chain of `depth` properly nested block tags: every level is a
+    block tag of a random kind (all of the library's block tags, with their continuation sections), the next level sits
+    in a random section of it.  Grammatical by construction."""
+    body = [('lit', 'core\n'), ('var', ('name', 'y'), [])]
+    for _ in range(depth):
+        k = r.choice(kinds or CHAIN_KINDS)
+        inner = _side(r, fat) + body + _side(r, fat)
+        tgt = tmplgen.gen_target(r)
+        if k == 'if':
+            n = r.randint(1, 3)
+            has_else = r.random() < 0.5
+            j = r.randrange(n + (1 if has_else else 0))
+            secs = [inner if i == j else _side(r, fat) for i in range(n + 1)]
+            conds = [(tgt if i == 0 else tmplgen.gen_target(r), secs[i]) for i in range(n)]
+            node = ('if', conds, secs[n] if has_else else None)
+        elif k == 'unless':
+            node = ('unless', tgt, inner)
+        elif k == 'in':
+            opts = [o for o in [('sort', 'k'), ('reverse', None), ('size', '2'), ('prefix', 'p'), ('mapping', None)]
+                    if r.random() < 0.2]
+            if r.random() < 0.4:
+                two = [inner, _side(r, fat)]
+                if r.random() < 0.5:
+                    two.reverse()
+                node = ('in', tgt, opts, two[0], two[1])
+            else:
+                node = ('in', tgt, opts, inner, None)
+        elif k == 'with':
+            node = ('with', tgt, [('mapping', None)] if r.random() < 0.2 else [], inner)
+        elif k == 'let':
+            binds = [('v0', r.choice(tmplgen.NAMES), False)]
+            if r.random() < 0.4:
+                binds.append(('v1', r.choice(tmplgen.EXPRS), True))
+            node = ('let', binds, inner)
+        elif k == 'raise':
+            node = ('raise', ('name', r.choice(['KeyError', 'ValueError', 'Oops'])), inner)
+        elif k == 'comment':
+            node = ('comment', inner)
+        else:
+            c = r.random()
+            if c < 0.3:     # try / finally
+                two = [inner, _side(r, fat)]
+                if r.random() < 0.5:
+                    two.reverse()
+                node = ('try', two[0], [], None, two[1])
+            else:           # try / except ... [else]
+                names = r.choice([['KeyError'], [''], ['KeyError', ''], ['ValueError KeyError', 'Exception']])
+                has_else = r.random() < 0.3
+                nsec = 1 + len(names) + (1 if has_else else 0)
+                j = r.randrange(nsec)
+                secs = [inner if i == j else _side(r, fat) for i in range(nsec)]
+                node = ('try', secs[0], [(nm, secs[1 + i]) for i, nm in enumerate(names)],
+                        secs[-1] if has_else else None, None)
+        body = [node]
+    return body
+
+
+CLOSERS = {'dtml': re.compile(r'</dtml-[a-z]+[^>]*>'),
+           'ssi': re.compile(r'<!--#(?:/|end ?|END)[a-z]+.*?-->', re.S),
+           'epfs': re.compile(r'%\([a-z]+[^)]*\)\]')}
+
+
+def drop_closer(r, src, syntax):
+    """delete one end tag of a printed chain (the generator's literals contain no tag opener, so every match of the
+    end-tag shape IS an end tag): a block is left without its end tag -> the source violates the grammar"""
+    ms = list(CLOSERS[syntax].finditer(src))
+    if not ms:
+        return None
+    m = r.choice(ms)
+    return src[:m.start()] + src[m.end():]
+
+
+# --------------------------------------------------------------------------- pumped families (running time)
+
+def _nest(o, c, core='<dtml-var y>'):
+    return lambda n: o * n + core + c * n
+
+
+def pump_catalogue(r):
+    """[(name, n -> (class kind, source), shape, expected status | None)]; shape 'flat' = a part repeated n times
+    (sizes in the hundreds), 'nest' = n levels of properly nested blocks / n unmatched openers (n = nesting depth)."""
+    F = []
+
+    def flat(name, kind, f, expect=None):
+        F.append((name, (lambda n, kind=kind, f=f: (kind, f(n))), 'flat', expect))
+
+    def nest(name, kind, f, expect=None):
+        F.append((name, (lambda n, kind=kind, f=f: (kind, f(n))), 'nest', expect))
+
+    # --- the families the check always had
+    flat('epfs-unclosed-args', 'epfs', lambda n: '%(x ' + 'a' * n, 'ok')
+    flat('epfs-quotes', 'epfs', lambda n: '%(x ' + 'a "b" ' * n, 'ok')
+    flat('epfs-openers', 'epfs', lambda n: '%(' * n, 'ok')
+    flat('html-unclosed-quote', 'html', lambda n: '<dtml-var "' + 'a>' * n)
+    flat('html-amp', 'html', lambda n: '&dtml-' * n, 'ok')
+    flat('html-lt', 'html', lambda n: '<' * n + '<dtml-var x>', 'ok')
+    flat('html-many-tags', 'html', lambda n: '<dtml-var x>' * n, 'ok')
+    flat('html-ssi-unclosed', 'html', lambda n: '<!--#var ' + 'x-' * n)
+    flat('html-params', 'html', lambda n: '<dtml-var x ' + 'a=b ' * n + '>', 'parse-error')
+    # --- repetition of every other part a source is made of
+    flat('html-entities', 'html', lambda n: '&dtml-x;' * n, 'ok')
+    flat('html-entity-modifiers', 'html', lambda n: '&dtml.' + 'upper.' * n + 'lower-x;')
+    flat('html-entity-unclosed', 'html', lambda n: '&dtml.' + 'upper.' * n)
+    flat('html-blanks-in-tag', 'html', lambda n: '<dtml-var x' + ' ' * n + '>', 'ok')
+    flat('html-blanks-unclosed', 'html', lambda n: '<dtml-var x' + ' \n' * n)
+    flat('html-long-name', 'html', lambda n: '<dtml-var ' + 'x' * n + '>', 'ok')
+    flat('html-long-tag-name', 'html', lambda n: '<dtml-' + 'a' * n + '>', 'parse-error')
+    flat('html-long-end-name', 'html', lambda n: '</dtml-' + 'a' * n)
+    flat('html-long-attr-name', 'html', lambda n: '<dtml-var x ' + 'a' * n + '=1>', 'parse-error')
+    flat('html-long-quoted', 'html', lambda n: '<dtml-var x fmt="' + 'a' * n + '">', 'ok')
+    flat('html-long-quoted-unclosed', 'html', lambda n: '<dtml-var x fmt="' + 'a ' * n)
+    flat('html-quotes', 'html', lambda n: '<dtml-var ' + '"' * n + '>')
+    flat('html-equals', 'html', lambda n: '<dtml-var x ' + '= ' * n + '>', 'parse-error')
+    flat('html-quoted-params', 'html', lambda n: '<dtml-var x ' + 'a="b" ' * n + '>', 'parse-error')
+    flat('html-let-bindings', 'html',
+         lambda n: '<dtml-let ' + ' '.join('a%d=b' % i for i in range(n)) + '>x</dtml-let>', None)
+    flat('html-let-expr-bindings', 'html',
+         lambda n: '<dtml-let ' + ' '.join('a%d="1"' % i for i in range(n)) + '>x</dtml-let>', None)
+    flat('html-distinct-params', 'html', lambda n: '<dtml-var x ' + ' '.join('a%d=b' % i for i in range(n)) + '>')
+    flat('html-lines-then-error', 'html', lambda n: 'a\n' * n + '<dtml-nosuch>', 'parse-error')
+    flat('html-tags-then-error', 'html', lambda n: '<dtml-var x>\n' * n + '<dtml-if x>', 'parse-error')
+    flat('html-errors-each-line', 'html', lambda n: '</dtml-if>\n' * n, 'parse-error')
+    flat('html-continuations-alone', 'html', lambda n: '<dtml-else>' * n, 'parse-error')
+    flat('html-elifs', 'html', lambda n: '<dtml-if x>' + 'a<dtml-elif y>' * n + '</dtml-if>', 'ok')
+    flat('html-excepts', 'html', lambda n: '<dtml-try>' + 'a<dtml-except KeyError>' * n + '</dtml-try>', 'ok')
+    flat('html-elses', 'html', lambda n: '<dtml-in x>' + 'a<dtml-else>' * n + '</dtml-in>', 'parse-error')
+    flat('html-block-children', 'html', lambda n: '<dtml-if x>' + '<dtml-var y>\n' * n + '</dtml-if>', 'ok')
+    flat('html-sibling-blocks', 'html', lambda n: '<dtml-if x>a</dtml-if>\n' * n, 'ok')
+    flat('html-sibling-blocks-in-block', 'html', lambda n: '<dtml-in x>' + '<dtml-if x>a</dtml-if>\n' * n + '</dtml-in>',
+         'ok')
+    flat('html-comment-body', 'html', lambda n: '<dtml-comment>' + '<dtml-var x> <b> ' * n + '</dtml-comment>', 'ok')
+    flat('ssi-many-tags', 'html', lambda n: '<!--#var x-->' * n, 'ok')
+    flat('ssi-sibling-blocks', 'html', lambda n: '<!--#if x-->a<!--#/if-->' * n, 'ok')
+    flat('ssi-dashes', 'html', lambda n: '<!--#var x ' + '-' * n)
+    flat('ssi-openers', 'html', lambda n: '<!--' * n + '#var x-->')
+    flat('ssi-end-spellings', 'html', lambda n: '<!--#if x-->a<!--#endif-->' * n, 'ok')
+    flat('epfs-many-tags', 'epfs', lambda n: '%(x)s' * n, 'ok')
+    flat('epfs-sibling-blocks', 'epfs', lambda n: '%(if x)[a%(if x)]' * n, 'ok')
+    flat('epfs-params', 'epfs', lambda n: '%(x ' + 'a=b ' * n + ')s', 'parse-error')
+    flat('epfs-quoted-params', 'epfs', lambda n: '%(x ' + 'a "b" ' * n + ')s')
+    flat('epfs-long-quoted', 'epfs', lambda n: '%(x fmt="' + 'a' * n + '")s', 'ok')
+    flat('epfs-long-quoted-unclosed', 'epfs', lambda n: '%(x fmt="' + 'a ' * n, 'ok')
+    flat('epfs-blanks', 'epfs', lambda n: '%(x' + ' ' * n + ')s')
+    flat('epfs-blanks-unclosed', 'epfs', lambda n: '%(x' + ' \n' * n, 'ok')
+    flat('epfs-percents', 'epfs', lambda n: '%' * n + '(x)s')
+    flat('epfs-long-name', 'epfs', lambda n: '%(' + 'a' * n + ')s', 'ok')
+    flat('epfs-no-format', 'epfs', lambda n: '%(x)' * n, 'ok')
+    flat('epfs-bad-format', 'epfs', lambda n: '%(x ' + 'a' * n + ')#', 'ok')
+    flat('epfs-bad-format-quotes', 'epfs', lambda n: '%(x ' + 'a "b" ' * n + ')#', 'ok')
+    flat('epfs-prose', 'epfs', lambda n: 'Totals: %(count ' + 'of all the rows ' * n + ') listed', 'ok')
+    flat('epfs-odd-quotes', 'epfs', lambda n: '%(x ' + 'a" ' * n + ')s')
+    flat('epfs-elifs', 'epfs', lambda n: '%(if x)[' + 'a%(elif y)[' * n + '%(if x)]', 'ok')
+    flat('epfs-lines-then-error', 'epfs', lambda n: 'a\n' * n + '%(nosuch x)[', 'parse-error')
+    # --- long Python expressions wherever a tag takes one (Python's own limits must surface as ParseError, or as
+    #     SyntaxError for an explicit expr=)
+    flat('expr-sum', 'html', lambda n: '<dtml-var expr="' + '1+' * n + '1">', 'ok')
+    flat('expr-sum-shorthand', 'html', lambda n: '<dtml-var "' + '1+' * n + '1">', 'ok')
+    flat('expr-sum-epfs', 'epfs', lambda n: '%(var expr="' + '1+' * n + '1")s', 'ok')
+    flat('expr-sum-let', 'html', lambda n: '<dtml-let a="' + '1+' * n + '1">x</dtml-let>', 'ok')
+    flat('expr-or-if', 'html', lambda n: '<dtml-if "' + 'x or ' * n + 'x">a<dtml-elif "' + 'not ' * n + 'x">b</dtml-if>',
+         'ok')
+    flat('expr-sum-sort_expr', 'html', lambda n: '<dtml-in x sort_expr="' + '1+' * n + '1">x</dtml-in>', 'ok')
+    flat('expr-attribute-chain', 'html', lambda n: '<dtml-call "x' + '.a[0]()' * n + '">', 'ok')
+    flat('expr-parentheses-shorthand', 'html', lambda n: '<dtml-var "' + '(' * n + '1' + ')' * n + '">')
+    flat('expr-parentheses', 'html', lambda n: '<dtml-with expr="' + '(' * n + '1' + ')' * n + '">x</dtml-with>')
+    flat('expr-unbalanced-shorthand', 'html', lambda n: '<dtml-var "' + '(' * n + '1">', 'parse-error')
+    flat('expr-long-string', 'html', lambda n: '<dtml-var expr="\'' + 'a' * n + '\'">', 'ok')
+    # --- nesting depth: every block tag, the three spellings, closed / unclosed / only end tags
+    heads = {'if': 'if x', 'unless': 'unless x', 'in': 'in x', 'with': 'with x', 'let': 'let a=b', 'try': 'try',
+             'comment': 'comment', 'raise': 'raise KeyError'}
+    for tag, head in heads.items():
+        mid = '<dtml-except>' if tag == 'try' else ''
+        nest('nest-dtml-' + tag, 'html', _nest('<dtml-%s>\n' % head, mid + '</dtml-%s>\n' % tag), 'ok')
+        mid = '%(except)[' if tag == 'try' else ''
+        nest('nest-epfs-' + tag, 'epfs', _nest('%%(%s)[\n' % head, mid + '%%(%s)]\n' % tag, '%(y)s'), 'ok')
+    nest('nest-ssi-if', 'html', _nest('<!--#if x-->\n', '<!--#/if-->\n', '<!--#var y-->'), 'ok')
+    nest('nest-ssi-in-endin', 'html', _nest('<!--#in x-->', '<!--#endin-->', '<!--#var y-->'), 'ok')
+    nest('nest-dtml-if-else', 'html', _nest('<dtml-if x>a<dtml-else>', '</dtml-if>'), 'ok')
+    nest('nest-dtml-if-then', 'html', _nest('<dtml-if x>', '<dtml-elif y>b<dtml-else>c</dtml-if>'), 'ok')
+    nest('nest-dtml-try-handler', 'html', _nest('<dtml-try>a<dtml-except KeyError>', '</dtml-try>'), 'ok')
+    nest('nest-dtml-try-finally', 'html', _nest('<dtml-try>', '<dtml-finally>f</dtml-try>'), 'ok')
+    nest('nest-dtml-in-else', 'html', _nest('<dtml-in x>', '<dtml-else>e</dtml-in>'), 'ok')
+    nest('nest-dtml-alternating', 'html', _nest('<dtml-in x><dtml-if y>', '</dtml-if></dtml-in>'), 'ok')
+    nest('nest-dtml-with-siblings', 'html', _nest('<dtml-if x><dtml-var a><dtml-if b>c</dtml-if>',
+                                                  '<dtml-call d></dtml-if>'), 'ok')
+    nest('nest-dtml-unclosed', 'html', lambda n: 'a\n' + '<dtml-if x>\n' * n + 'b', 'parse-error')
+    nest('nest-epfs-unclosed', 'epfs', lambda n: 'a\n' + '%(in x)[\n' * n + 'b', 'parse-error')
+    nest('nest-dtml-half-closed', 'html', lambda n: '<dtml-with x>' * (2 * n) + 'a' + '</dtml-with>' * n, 'parse-error')
+    nest('nest-dtml-wrong-innermost-end', 'html', lambda n: '<dtml-if x>' * n + '</dtml-in>' + '</dtml-if>' * n,
+         'parse-error')
+    nest('nest-dtml-error-at-the-bottom', 'html', lambda n: '<dtml-if x>\n' * n + '<dtml-var x nosuch>'
+         + '</dtml-if>' * n, 'parse-error')
+    nest('nest-dtml-bad-outermost', 'html', lambda n: '<dtml-in x orphan=1>' + '<dtml-if x>' * n + 'a'
+         + '</dtml-if>' * n + '</dtml-in>', 'parse-error')
+    # --- random chains (mixed tags, continuation sections, text and simple tags beside the nested block), scaled by
+    #     depth: the same generator state for every size, so the n-deep chain is drawn the same way at each size
+    for syntax in ('dtml', 'ssi', 'epfs'):
+        for i in range(2):
+            s0 = r.getrandbits(32)
+
+            def chain(n, syntax=syntax, s0=s0):
+                rr = random.Random(s0)
+                return tmplgen.render_source(gen_chain(rr, n, fat=0.15), syntax, rr)
+            F.append(('nest-chain-%s-%d' % (syntax, i), chain, 'nest', 'ok'))
+    # --- random pumps from the junk alphabet:  u v^n w  and  u^n v w^n
+    for i in range(24):
+        syn = r.choice(['html', 'epfs'])
+        fr = FRAGS_HTML if syn == 'html' else FRAGS_EPFS
+        u, v, w = (''.join(r.choice(fr) for _ in range(r.randint(1, 3))) for _ in range(3))
+        if i % 2:
+            F.append(('rand-flat-%d' % i, (lambda n, syn=syn, u=u, v=v, w=w: (syn, u + v * n + w)), 'rand', None))
+        else:
+            F.append(('rand-nest-%d' % i, (lambda n, syn=syn, u=u, v=v, w=w: (syn, u * n + v + w * n)), 'rand', None))
+    return F
+
+
+PUMP_SIZES = {'quick': {'flat': [200, 400, 800], 'nest': [8, 12, 16, 24, 48, 96], 'rand': [50, 100, 200]},
+              'thorough': {'flat': [500, 1000, 2000, 4000], 'nest': [8, 12, 16, 24, 32, 48, 64, 96, 128],
+                           'rand': [50, 100, 200, 400]}}
+PUMP_TIMEOUT = 10          # quick tier: seconds for ONE source of a few kB (the unchanged parser needs milliseconds)
+PUMP_TIMEOUT_THOROUGH = 60  # the thorough tier's sources are up to 5x longer (quadratic parts: 25x the time)
+MAX_TIME_FAILS = 3
+RECURSION_FREE_DEPTH = 150  # the known finding (RecursionError) is about ~300 levels and more
+
+
+def run_pumps(res, tier, n_timeouts):
+    r = common.rng('C06-pump')
+    timing = {}
+    fails = 0
+    limit = PUMP_TIMEOUT if tier == 'quick' else PUMP_TIMEOUT_THOROUGH
+    for name, f, shape, expect in pump_catalogue(r):
+        if n_timeouts >= MAX_TIMEOUTS or fails >= MAX_TIME_FAILS:
+            res.partial.append('pumped families stopped early after %d timing failures / %d timeouts'
+                               % (fails, n_timeouts))
+            break
+        sizes = PUMP_SIZES[tier][shape]
+        ts = []
+        res.count('pump-shape=' + shape)
+        for n in sizes:
+            kind, src = f(n)
+            t0 = time.process_time()
+            rr = parselib.compile_real(kind, src, timeout=limit)
+            dt = time.process_time() - t0
+            ts.append(round(dt, 4))
+            res.evaluations += 1
+            res.nt((kind, src))
+            case = {'syntax': kind, 'src': src, 'origin': 'pump', 'family': name, 'n': n, 'cpu_s': ts[:]}
+            if rr['status'] == 'timeout':
+                n_timeouts += 1
+                fails += 1
+                res.oracle_fail.append({'case': case, 'what': 'pumped input (%d characters) did not compile within '
+                                        '%d s' % (len(src), limit)})
+                break
+            if rr['status'] == 'recursion' and (shape == 'rand' or n > RECURSION_FREE_DEPTH):
+                # nesting / attribute count beyond the interpreter's recursion limit: the known finding
+                res.known_hits['C06-deep-nesting-recursion'] = {'src': '%s at n=%d' % (name, n)}
+                res.count('pump-recursion')
+                break
+            for w in oracle(kind, src, rr):
+                res.oracle_fail.append({'case': case, 'what': w})
+            if expect is not None and rr['status'] != expect and rr['status'] != 'recursion':
+                r2 = dict(rr)
+                r2.pop('blocks', None)
+                res.oracle_fail.append({'case': case, 'what': 'by construction this source must %s, got %r' % (
+                    'compile' if expect == 'ok' else 'be rejected with a ParseError', r2)})
+            # growing the input by a factor <= 2 may at most ~quadruple the time (generous factor 8, absolute floor);
+            # a suspicious measurement is repeated (best of 3) so that a garbage collection of the harness' own heap
+            # falling into the measured interval is not taken for the parser's running time
+            for _ in range(2):
+                if not (len(ts) > 1 and ts[-1] > 0.5 and ts[-1] > 8 * max(ts[-2], 0.02)):
+                    break
+                gc.collect()
+                t0 = time.process_time()
+                parselib.compile_real(kind, src, timeout=limit)
+                ts[-1] = min(ts[-1], round(time.process_time() - t0, 4))
+                case['cpu_s'] = ts[:]
+            if len(ts) > 1 and ts[-1] > 0.5 and ts[-1] > 8 * max(ts[-2], 0.02):
+                fails += 1
+                res.oracle_fail.append({'case': dict(case, sizes=sizes[:len(ts)]),
+                                        'what': 'running time grows faster than quadratically: n=%r -> cpu %r s'
+                                        % (sizes[:len(ts)], ts)})
+                break
+        timing[name] = ts
+    res.extra['pump_cpu_seconds'] = timing
+    return n_timeouts
+
+
+# --------------------------------------------------------------------------- compile histories on one object
+
+def _template_class(kind):
+    from DocumentTemplate import HTML, String, File, HTMLFile
+    return {'html': HTML, 'epfs': String, 'htmlfile': HTMLFile, 'epfsfile': File}[kind]
+
+
+def _base(kind):
+    return 'html' if kind in ('html', 'htmlfile') else 'epfs'
+
+
+def classify(kind, fn, done=None):
+    """run one operation of a history under the watchdog and classify it like parselib.compile_real does;
+    `done` (for operations that also render) tells whether compilation had succeeded when another exception came"""
+    from DocumentTemplate.DT_Util import ParseError
+    try:
+        st, _ = parselib.with_alarm(fn)
+        if st == 'timeout':
+            return {'status': 'timeout'}
+    except ParseError as e:
+        m = parselib.ERR.match(str(e.args[0])) if e.args else None
+        if not m:
+            return {'status': 'parse-error', 'msg': str(e), 'tag': None, 'line': None}
+        tag = m.group(2)
+        if _base(kind) == 'html':
+            tag = parselib.unquote_html(tag)
+        return {'status': 'parse-error', 'msg': m.group(1), 'tag': tag, 'line': int(m.group(3))}
+    except SyntaxError as e:
+        return {'status': 'syntax-error', 'msg': str(e)[:80]}
+    except RecursionError:
+        return {'status': 'recursion'}
+    except BaseException as e:  # noqa
+        if done is not None and done():
+            return {'status': 'ok'}
+        return {'status': 'other', 'exc': type(e).__name__ + ': ' + str(e)[:100]}
+    return {'status': 'ok'}
+
+
+SOURCE_OPS = ['munge', 'edit', 'raw+cook']              # change the source of a string template, then compile
+FILE_SOURCE_OPS = ['write+cook', 'edited+cook']         # change what a file template reads, then compile
+SAME_OPS = ['cook', 'cook', 'ghost+cook', 'ghost+call', 'call', 'munge-none']
+
+
+def run_history(h, tmpdir):
+    """h = {'objects': [kind], 'init': [src], 'steps': [[object index, operation, source | None]]}
+    -> [(source that was to be compiled, outcome) | None for steps that do not compile]"""
+    objs, cur, paths = [], [], []
+    for i, (kind, src) in enumerate(zip(h['objects'], h['init'])):
+        cls = _template_class(kind)
+        if kind.endswith('file'):
+            path = os.path.join(tmpdir, 't%d.dtml' % i)
+            with open(path, 'w') as f:
+                f.write(src)
+            objs.append(cls(path))
+            paths.append(path)
+        else:
+            objs.append(cls(src))
+            paths.append(None)
+        cur.append(src)
+    obs = []
+    for i, op, src in h['steps']:
+        t = objs[i]
+        kind = h['objects'][i]
+        compiles = True
+        if op in ('ghost+cook', 'ghost+call'):
+            # what the ZODB does to an object it evicts and loads again: a new object from the pickled state
+            t2 = t.__class__.__new__(t.__class__)
+            t2.__dict__.update(t.__getstate__())
+            t = objs[i] = t2
+        if op == 'munge':
+            fn = lambda: t.munge(src)
+        elif op == 'edit':
+            fn = lambda: t.manage_edit(src)
+        elif op == 'raw+cook':
+            def fn():
+                t.raw = src
+                t.cook()
+        elif op == 'write+cook':
+            def fn():
+                t.edited_source = ''
+                with open(paths[i], 'w') as f:
+                    f.write(src)
+                t.cook()
+        elif op == 'edited+cook':
+            def fn():
+                t.edited_source = src
+                t.cook()
+        elif op in ('cook', 'ghost+cook'):
+            fn = t.cook
+        elif op == 'munge-none':
+            fn = t.munge
+        else:   # 'call', 'ghost+call': compiles only when the object has no compiled form yet
+            compiles = not hasattr(t, '_v_cooked')
+            fn = t
+        if src is not None:
+            cur[i] = src
+        if kind.endswith('file') and op == 'edited+cook' and src == '':
+            # an empty edited source means "not edited": the file's text is the source again
+            with open(paths[i]) as f:
+                cur[i] = f.read()
+        if not compiles:
+            classify(kind, fn)      # a rendering between compilations: whatever it does, it is not a verdict
+            obs.append(None)
+            continue
+        if hasattr(t, '_v_blocks') and op in ('call', 'ghost+call'):
+            del t._v_blocks
+        out = classify(kind, fn, done=(lambda: hasattr(t, '_v_blocks')) if op in ('call', 'ghost+call') else None)
+        if out['status'] == 'ok':
+            out['blocks'] = getattr(t, '_v_blocks', None)
+            out['read'] = t.read()
+        obs.append((cur[i], out))
+    return obs
+
+
+def verdict_key(rr):
+    return (rr['status'], rr.get('msg'), rr.get('tag'), rr.get('line')) if rr['status'] != 'ok' else ('ok',)
+
+
+def check_history(h, obs, fresh):
+    """every compilation of a history == the compilation of the same source by a fresh template object"""
+    for k, ob in enumerate(obs):
+        if ob is None:
+            continue
+        src, out = ob
+        kind = h['objects'][h['steps'][k][0]]
+        exp = fresh(_base(kind), src)
+        if exp['status'] not in ('ok', 'parse-error', 'syntax-error'):
+            return None
+        what = None
+        if verdict_key(out) != verdict_key(exp):
+            e2 = dict(exp)
+            e2.pop('blocks', None)
+            o2 = dict(out)
+            o2.pop('blocks', None)
+            what = 'step %d (%s on object %d, a %s template): a fresh template object gives %r for the source %r, ' \
+                   'this object after its history gives %r' % (k, h['steps'][k][1], h['steps'][k][0], kind, e2, src, o2)
+        elif out['status'] == 'ok':
+            if out['blocks'] is None or parselib.norm(out['blocks']) != parselib.norm(exp['blocks']):
+                what = 'step %d (%s): compiled form differs from the one a fresh template object builds for %r' % (
+                    k, h['steps'][k][1], src)
+            elif out['read'] != src:
+                what = 'step %d (%s): the template reads back %r, not the compiled source %r' % (
+                    k, h['steps'][k][1], out['read'], src)
+        if what:
+            return {'case': {'origin': 'history', 'history': {'objects': h['objects'], 'init': h['init'],
+                                                             'steps': h['steps'][:k + 1]}}, 'what': what}
+    return None
+
+
+def gen_history(r, pools):
+    """pools: base kind -> {'ok': [src], 'bad': [src]} (sources with a known fresh verdict)"""
+    nobj = r.choice([1, 1, 1, 2, 2, 3])
+    objects = [r.choice(['html', 'html', 'epfs', 'epfs', 'htmlfile', 'epfsfile']) for _ in range(nobj)]
+
+    def usable(kind, s):
+        # a file template reads its text through the platform's text layer: keep that an identity
+        return not kind.endswith('file') or (s.isascii() and '\r' not in s and s != '')
+
+    def pick(kind, used, current):
+        c = r.random()
+        if c < 0.12 and used:
+            cands = [s for s in used if usable(kind, s)]
+            if cands:
+                return r.choice(cands)      # a source seen earlier in this history (A, B, A; or another object's)
+        if c < 0.22 and current:
+            s = mutate(r, current)          # a near-identical source
+            if usable(kind, s):
+                return s
+        if c < 0.30:
+            other = 'epfs' if _base(kind) == 'html' else 'html'
+            s = r.choice(pools[other][r.choice(['ok', 'bad'])])   # a source written for the other syntax
+            if usable(kind, s):
+                return s
+        for _ in range(20):
+            s = r.choice(pools[_base(kind)]['ok' if r.random() < 0.5 else 'bad'])
+            if usable(kind, s):
+                return s
+        return 'plain text'
+
+    used = []
+    init = []
+    for kind in objects:
+        s = pick(kind, used, None)
+        init.append(s)
+        used.append(s)
+    cur = list(init)
+    steps = []
+    for _ in range(r.randint(2, 7)):
+        i = r.randrange(nobj)
+        kind = objects[i]
+        src_ops = FILE_SOURCE_OPS if kind.endswith('file') else SOURCE_OPS
+        c = r.random()
+        if c < 0.35:
+            steps.append([i, r.choice(SAME_OPS if not kind.endswith('file') else SAME_OPS[:-1]), None])
+        elif c < 0.6:
+            steps.append([i, r.choice(src_ops), cur[i]])          # the same source submitted again
+        else:
+            s = pick(kind, used, cur[i])
+            steps.append([i, r.choice(src_ops), s])
+            cur[i] = s
+            used.append(s)
+    return {'objects': objects, 'init': init, 'steps': steps}
+
+
+def run_histories(res, tier, cases, results, one, n_timeouts):
+    r = common.rng('C06-hist')
+    memo = {}
+    pools = {'html': {'ok': [], 'bad': []}, 'epfs': {'ok': [], 'bad': []}}
+    for (kind, src, origin), rr in zip(cases, results):
+        memo.setdefault((kind, src), rr)
+        if len(src) <= 300 and rr['status'] in ('ok', 'parse-error', 'syntax-error'):
+            pools[kind]['ok' if rr['status'] == 'ok' else 'bad'].append(src)
+    state = {'timeouts': n_timeouts}
+
+    def fresh(kind, src):
+        if (kind, src) not in memo:
+            cases.append((kind, src, 'history-source'))
+            memo[(kind, src)] = one(kind, src, 'history-source')
+            if memo[(kind, src)]['status'] == 'timeout':
+                state['timeouts'] += 1
+        return memo[(kind, src)]
+
+    tmpdir = tempfile.mkdtemp(prefix='c06hist')
+    try:
+        for _ in range(1500 if tier == 'quick' else 30000):
+            if state['timeouts'] >= MAX_TIMEOUTS:
+                break
+            h = gen_history(r, pools)
+            obs = run_history(h, tmpdir)
+            res.evaluations += sum(1 for o in obs if o is not None)
+            res.nt(json.dumps(h, sort_keys=True))
+            res.count('history-objects=' + '+'.join(sorted(set(h['objects']))))
+            for (i, op, src), o in zip(h['steps'], obs):
+                res.count('history-op=' + op + ('' if o is not None else ' (no compilation)'))
+                if o is not None:
+                    res.count('history-outcome=' + o[1]['status'])
+                    if o[1]['status'] == 'timeout':
+                        state['timeouts'] += 1
+            f = check_history(h, obs, fresh)
+            if f:
+                res.oracle_fail.append(f)
+    finally:
+        shutil.rmtree(tmpdir, ignore_errors=True)
+    return state['timeouts']
+
+
 def run(res, tier, have_driver):
     r = common.rng('C06')
     res.rule = ('(a) valid abstract templates printed in dtml / SSI / EPFS syntax; (b) each with one mutation '
                 '(delete, duplicate, swap, insert) ; (c) every prefix of a sample of templates; (d) junk: random '
-                'concatenations of tag fragments, quotes and delimiters in both syntaxes; (e) pumped families for '
-                'running time; non-trivial = distinct source containing at least one tag opener')
+                'concatenations of tag fragments, quotes and delimiters in both syntaxes; (e) grammar faults, one per '
+                'fault class; (f) chains of 4-12 properly nested block tags of random kinds (all 8 block tags, their '
+                'continuation sections, text / simple tags beside the nested block) in the three syntaxes: must '
+                'compile; the same with one end tag deleted: must be rejected; (g) pumped families for running time, '
+                'each at growing sizes under a %d s watchdog, time may grow at most ~quadratically: repetition '
+                'u v^n w of every part a source is made of (tags, entities, attributes, quotes, blanks, lines, '
+                'continuation tags, sibling blocks, errors at the end of long sources, long Python expressions in every '
+                'expression position), NESTING u^n v w^n (n = depth '
+                '8..96) of every block tag in every syntax, closed / unclosed / half closed / with continuation '
+                'sections / error at the bottom, random mixed chains scaled by depth, and random u,v,w from the junk '
+                'alphabet; each family also has its verdict by construction; (h) compile histories: 1-3 template '
+                'objects (HTML, String, HTMLFile, File), 2-7 steps of munge / manage_edit / raw assignment + cook / '
+                'file rewritten + cook / edited_source + cook / cook again / munge() / object re-created from its '
+                'pickled state then cook or call / call, sources: valid and invalid ones, the same source again, '
+                'a source seen earlier, a one-mutation neighbour, a source of the other syntax; expected outcome of '
+                'every compilation in a history = outcome (verdict, message, tag, line, compiled tree) of a FRESH '
+                'template object for that source; non-trivial = distinct source containing at least one tag opener / '
+                'distinct history' % (PUMP_TIMEOUT if tier == 'quick' else PUMP_TIMEOUT_THOROUGH))
     cases = []
     n_t = 250 if tier == 'quick' else 4000
     for i in range(n_t):
@@ -196,18 +768,22 @@ def run(res, tier, have_driver):
         for syn in ('dtml', 'ssi', 'epfs'):
             src = print_fault(parts, syn)
             cases.append(('epfs' if syn == 'epfs' else 'html', 'pre\n' + src + 'post', 'fault:' + label))
+    rn = common.rng('C06-nest')
+    for i in range(40 if tier == 'quick' else 400):
+        t = gen_chain(rn, rn.randint(4, 12))
+        for syn in ('dtml', 'ssi', 'epfs'):
+            kind, src = tmplgen.render_source(t, syn, rn)
+            cases.append((kind, src, 'nest'))
+            broken = drop_closer(rn, src, syn)
+            if broken is not None:
+                cases.append((kind, broken, 'nest-broken'))
     results = []
     reqs = []
     n_timeouts = 0
-    for kind, src, origin in cases:
-        if n_timeouts >= MAX_TIMEOUTS:
-            # every further hang costs TIMEOUT seconds and adds nothing: the witnesses are recorded
-            res.partial.append('stopped compiling generated sources after %d of them did not finish' % n_timeouts)
-            cases = cases[:len(results)]
-            break
+
+    def one(kind, src, origin):
+        """compile one source with a fresh template object, apply the stateless oracles, queue it for the model"""
         rr = parselib.compile_real(kind, src)
-        if rr['status'] == 'timeout':
-            n_timeouts += 1
         results.append(rr)
         res.evaluations += 1
         res.count('origin=' + origin.split(':')[0])
@@ -215,17 +791,33 @@ def run(res, tier, have_driver):
         if rr['status'] == 'parse-error':
             res.count('error:' + rr['msg'].strip()[:40])
         for f in oracle(kind, src, rr):
-            if origin == 'valid' or True:
-                res.oracle_fail.append({'case': {'syntax': kind, 'src': src, 'origin': origin}, 'what': f})
+            res.oracle_fail.append({'case': {'syntax': kind, 'src': src, 'origin': origin}, 'what': f})
         if origin.startswith('fault:') and rr['status'] == 'ok':
             res.oracle_fail.append({'case': {'syntax': kind, 'src': src, 'origin': origin},
                                     'what': 'a source violating the tag grammar (%s) was accepted' % origin[6:]})
-        if origin == 'valid' and rr['status'] != 'ok':
+        if origin in ('valid', 'nest') and rr['status'] != 'ok':
             res.oracle_fail.append({'case': {'syntax': kind, 'src': src, 'origin': origin},
                                     'what': 'a grammatical template was rejected: %r' % (rr,)})
+        if origin == 'nest-broken' and rr['status'] == 'ok':
+            res.oracle_fail.append({'case': {'syntax': kind, 'src': src, 'origin': origin},
+                                    'what': 'a chain of nested blocks with one end tag deleted was accepted'})
         if any(o in src for o in tmplgen.OPENERS):
             res.nt((kind, src))
         reqs.append({'op': 'compile', 'syntax': kind, 'src': src})
+        return rr
+
+    for kind, src, origin in cases:
+        if n_timeouts >= MAX_TIMEOUTS:
+            # every further hang costs TIMEOUT seconds and adds nothing: the witnesses are recorded
+            res.partial.append('stopped compiling generated sources after %d of them did not finish' % n_timeouts)
+            cases = cases[:len(results)]
+            break
+        if one(kind, src, origin)['status'] == 'timeout':
+            n_timeouts += 1
+
+    # compile histories on one object: expected outcome = a fresh template object's (the stateless verdicts above)
+    if n_timeouts < MAX_TIMEOUTS:
+        n_timeouts = run_histories(res, tier, cases, results, one, n_timeouts)
     for i in (0, 1, len(cases) // 2, len(cases) - 1):
         rr = dict(results[i])
         rr.pop('blocks', None)
@@ -273,43 +865,8 @@ def run(res, tier, have_driver):
             if rp.get('ok') != real:
                 res.corr_mismatch.append({'case': {'syntax': k, 'src': s}, 'impl': real, 'model': rp.get('ok'),
                                           'diff': 'tokens'})
-    # running time on pumped families: must stay (at most) quadratic
-    fams = {
-        'epfs-unclosed-args': lambda n: ('epfs', '%(x ' + 'a' * n),
-        'epfs-quotes': lambda n: ('epfs', '%(x ' + 'a "b" ' * n),
-        'epfs-openers': lambda n: ('epfs', '%(' * n),
-        'html-unclosed-quote': lambda n: ('html', '<dtml-var "' + 'a>' * n),
-        'html-amp': lambda n: ('html', '&dtml-' * n),
-        'html-lt': lambda n: ('html', '<' * n + '<dtml-var x>'),
-        'html-many-tags': lambda n: ('html', '<dtml-var x>' * n),
-        'html-ssi-unclosed': lambda n: ('html', '<!--#var ' + 'x-' * n),
-        'html-params': lambda n: ('html', '<dtml-var x ' + 'a=b ' * n + '>'),
-    }
-    sizes = [200, 400, 800] if tier == 'quick' else [500, 1000, 2000, 4000]
-    timing = {}
-    for name, f in fams.items():
-        if n_timeouts >= MAX_TIMEOUTS:
-            break
-        ts = []
-        for n in sizes:
-            kind, src = f(n)
-            t0 = time.process_time()
-            rr = parselib.compile_real(kind, src, timeout=60)
-            dt = time.process_time() - t0
-            ts.append(round(dt, 4))
-            res.evaluations += 1
-            if rr['status'] == 'timeout':
-                n_timeouts += 1
-                res.oracle_fail.append({'case': {'family': name, 'n': n}, 'what': 'pumped input timed out'})
-                break
-        timing[name] = ts
-        # doubling the input may at most ~quadruple the time (generous factor, small absolute floor)
-        for a, b in zip(ts, ts[1:]):
-            if b > 0.5 and b > 8 * max(a, 0.02):
-                res.oracle_fail.append({'case': {'family': name, 'sizes': sizes, 'cpu_s': ts},
-                                        'what': 'running time grows faster than quadratically'})
-                break
-    res.extra['pump_cpu_seconds'] = timing
+    # running time on pumped families (repetition and nesting): must stay (at most) quadratic
+    n_timeouts = run_pumps(res, tier, n_timeouts)
     # deep nesting: interpreter recursion limit (known finding)
     rr = parselib.compile_real('html', '<dtml-if x>' * 1000, timeout=60)
     if rr['status'] == 'recursion':
@@ -341,7 +898,37 @@ def replay(path):
     with open(path) as f:
         d = json.load(f)
     c = d['first']['case']
-    rr = parselib.compile_real(c['syntax'], c['src'])
+    if 'history' in c:
+        h = c['history']
+        tmpdir = tempfile.mkdtemp(prefix='c06hist')
+        try:
+            obs = run_history(h, tmpdir)
+        finally:
+            shutil.rmtree(tmpdir, ignore_errors=True)
+        f = check_history(h, obs, lambda kind, src: parselib.compile_real(kind, src))
+        for st, o in zip(h['steps'], obs):
+            print(st, None if o is None else {k: v for k, v in o[1].items() if k != 'blocks'})
+        print(f['what'] if f else 'every compilation of the history agrees with a fresh template object')
+        return 1 if f else 0
+    if 'family' in c:
+        # imports (the library, the lazily loaded block tags) are not part of the measured compilation
+        parselib.compile_real('html', '<dtml-if x><dtml-in x><dtml-with x><dtml-let a=b><dtml-try><dtml-unless x>'
+                              '<dtml-raise x><dtml-comment></dtml-comment></dtml-raise></dtml-unless><dtml-except>'
+                              '</dtml-try></dtml-let></dtml-with></dtml-in></dtml-if>')
+        parselib.compile_real('epfs', '%(if x)[%(x)s%(if x)]')
+    t0 = time.process_time()
+    rr = parselib.compile_real(c['syntax'], c['src'], timeout=PUMP_TIMEOUT if 'family' in c else parselib.TIMEOUT)
+    dt = time.process_time() - t0
     rr.pop('blocks', None)
-    print(rr, oracle(c['syntax'], c['src'], rr))
-    return 1 if oracle(c['syntax'], c['src'], rr) else 0
+    fails = oracle(c['syntax'], c['src'], rr)
+    if c.get('origin') in ('valid', 'nest') and rr['status'] != 'ok':
+        fails.append('a grammatical template was rejected')
+    if (c.get('origin') == 'nest-broken' or str(c.get('origin')).startswith('fault:')) and rr['status'] == 'ok':
+        fails.append('a source violating the tag grammar was accepted')
+    if 'family' in c:
+        print('family %s n=%s: %d characters, cpu %.3f s (recorded: %r)' % (c['family'], c.get('n'), len(c['src']), dt,
+                                                                          c.get('cpu_s')))
+        if dt > 0.5 and c.get('cpu_s') and len(c['cpu_s']) > 1 and dt > 8 * max(c['cpu_s'][-2], 0.02):
+            fails.append('running time grows faster than quadratically')
+    print(rr, fails)
+    return 1 if fails else 0
